@@ -4,6 +4,8 @@ import GeoVerif.Proofs.GeoidHeader
 import GeoVerif.Proofs.GeoidWindow
 import GeoVerif.Gen.GeoidH
 import Mathlib.Tactic.Linarith
+import Mathlib.Tactic.Ring
+import Mathlib.Tactic.NormNum
 import Mathlib.Tactic.SplitIfs
 /-!
 # C20 — Geoid heights depend only on the data and the position (core Lean only)
@@ -606,5 +608,180 @@ example : (match parse false (str "P5\n# Offset -108\n# Scale 0.003\n65536 32769
 example : (match scan true (str "P5\n# Scale -1\n# Offset 77\n# Offset -108\n# Scale 0.5\n4 5\n65535\n") with
     | .ok raw => F64.eq raw.st.offset (F64.ofInt (-108)) && F64.eq raw.st.scale (F64.fin false 1 (-1)) && raw.w == 4 && raw.h == 5 && raw.tell == some 61
     | .error _ => false) = true := by decide +kernel
+
+/-! ### the documented interpolation over ℚ (the same formulas `interpBilinearG` / `prepCubicG` / `interpCubicG` the driver
+    executes at binary64, read at the rationals; pixels through the same `rawSpec` / `gather`) -/
+section exact
+variable (H : Hdr) (pix : Pix) (offset scale : ℚ)
+
+/-- the exact bilinear interpolant on cell `(ix, iy)` at the fractional position `(fx, fy)` -/
+def bilQ (ix iy : Int) (fx fy : ℚ) : ℚ :=
+  interpBilinearG offset scale fx fy (prepBilinearG (fun n => (n : ℚ)) iy (gather stencilBilinear (rawSpec H pix) ix iy))
+
+theorem bilQ_eq (ix iy : Int) (fx fy : ℚ) :
+    bilQ H pix offset scale ix iy fx fy =
+      offset + scale * ((1 - fy) * ((1 - fx) * (rawSpec H pix ix iy : ℚ) + fx * (rawSpec H pix (ix + 1) iy : ℚ)) +
+        fy * ((1 - fx) * (rawSpec H pix ix (iy + 1) : ℚ) + fx * (rawSpec H pix (ix + 1) (iy + 1) : ℚ))) := by
+  simp [bilQ, interpBilinearG, prepBilinearG, gather, stencilBilinear]
+
+/-- **bilinear heights reproduce the grid values at the grid nodes** (all four corners of a cell) -/
+theorem bilinear_nodes (ix iy : Int) :
+    bilQ H pix offset scale ix iy 0 0 = offset + scale * (rawSpec H pix ix iy : ℚ) ∧
+    bilQ H pix offset scale ix iy 1 0 = offset + scale * (rawSpec H pix (ix + 1) iy : ℚ) ∧
+    bilQ H pix offset scale ix iy 0 1 = offset + scale * (rawSpec H pix ix (iy + 1) : ℚ) ∧
+    bilQ H pix offset scale ix iy 1 1 = offset + scale * (rawSpec H pix (ix + 1) (iy + 1) : ℚ) := by
+  simp only [bilQ_eq]
+  refine ⟨by ring, by ring, by ring, by ring⟩
+
+/-- **… and vary linearly along the cell edges** (all four edges) -/
+theorem bilinear_edges_linear (ix iy : Int) (t : ℚ) :
+    bilQ H pix offset scale ix iy t 0 = (1 - t) * bilQ H pix offset scale ix iy 0 0 + t * bilQ H pix offset scale ix iy 1 0 ∧
+    bilQ H pix offset scale ix iy t 1 = (1 - t) * bilQ H pix offset scale ix iy 0 1 + t * bilQ H pix offset scale ix iy 1 1 ∧
+    bilQ H pix offset scale ix iy 0 t = (1 - t) * bilQ H pix offset scale ix iy 0 0 + t * bilQ H pix offset scale ix iy 0 1 ∧
+    bilQ H pix offset scale ix iy 1 t = (1 - t) * bilQ H pix offset scale ix iy 1 0 + t * bilQ H pix offset scale ix iy 1 1 := by
+  simp only [bilQ_eq]
+  refine ⟨by ring, by ring, by ring, by ring⟩
+
+/-- **continuity across cell boundaries**: the polynomial pieces of neighbouring cells agree on the common edge, in
+    longitude (`fx = 1` of cell `ix` is `fx = 0` of cell `ix + 1`) and in latitude -/
+theorem bilinear_continuous (ix iy : Int) (t : ℚ) :
+    bilQ H pix offset scale ix iy 1 t = bilQ H pix offset scale (ix + 1) iy 0 t ∧
+    bilQ H pix offset scale ix iy t 1 = bilQ H pix offset scale ix (iy + 1) t 0 := by
+  simp only [bilQ_eq]
+  refine ⟨by ring, by ring⟩
+
+/-- pixels are periodic in the column index over the range `rawval` accepts (`−w ≤ ix < w`) -/
+theorem rawSpec_periodic (ix iy : Int) (hw : 2 ≤ H.w) (h1 : -H.w ≤ ix) (h2 : ix < H.w) :
+    rawSpec H pix (ix + H.w) iy = rawSpec H pix ix iy := by
+  rw [← rawSpec_wrap H pix (ix + H.w) iy (by omega) (by omega), ← rawSpec_wrap H pix ix iy (by omega) (by omega)]
+  congr 1
+  split_ifs <;> omega
+
+/-- **longitude periodicity**: the cell one period to the east has the same interpolant; in particular the piece of the
+    last column (`ix = w − 1`) joins continuously with the piece of column 0 across the seam -/
+theorem bilinear_periodic (ix iy : Int) (fx fy : ℚ) (hw : 2 ≤ H.w) (h1 : -H.w ≤ ix) (h2 : ix + 1 < H.w) :
+    bilQ H pix offset scale (ix + H.w) iy fx fy = bilQ H pix offset scale ix iy fx fy := by
+  simp only [bilQ_eq]
+  have e : ix + H.w + 1 = (ix + 1) + H.w := by ring
+  rw [e, rawSpec_periodic H pix ix iy hw h1 (by omega), rawSpec_periodic H pix ix (iy + 1) hw h1 (by omega),
+    rawSpec_periodic H pix (ix + 1) iy hw (by omega) h2, rawSpec_periodic H pix (ix + 1) (iy + 1) hw (by omega) h2]
+
+theorem bilinear_seam (iy : Int) (t : ℚ) (hw : 2 ≤ H.w) :
+    bilQ H pix offset scale (H.w - 1) iy 1 t = bilQ H pix offset scale 0 iy 0 t := by
+  rw [(bilinear_continuous H pix offset scale (H.w - 1) iy t).1]
+  have e : H.w - 1 + 1 = 0 + H.w := by ring
+  rw [e]
+  exact bilinear_periodic H pix offset scale 0 iy 0 t hw (by omega) (by omega)
+
+/-- `ConvertHeight` in the two directions is mutually inverse (exactly, over ℚ; the binary64 round trip is within 4 ulp
+    of |h| + |N|: oracle `convert-height-inverse` on the implementation) -/
+theorem convert_height_inverse (h N : ℚ) :
+    convertHeightG (convertHeightG h 1 N) (-1) N = h ∧ convertHeightG (convertHeightG h (-1) N) 1 N = h ∧ convertHeightG h 0 N = h := by
+  unfold convertHeightG
+  refine ⟨by ring, by ring, by ring⟩
+
+end exact
+
+/-- a cubic polynomial in the cell coordinates, coefficients in the order of the code's `t[0..9]` -/
+def cubicP (a : Fin 10 → ℚ) (x y : ℚ) : ℚ :=
+  a 0 + a 1 * x + a 2 * y + a 3 * x * x + a 4 * x * y + a 5 * y * y + a 6 * x * x * x + a 7 * x * x * y + a 8 * x * y * y + a 9 * y * y * y
+
+/-- the samples of a polynomial on the 12-point stencil, in the order the code gathers them -/
+def samples (p : ℚ → ℚ → ℚ) : List ℚ := stencilCubic.map fun d => p (d.1 : ℚ) (d.2 : ℚ)
+
+theorem range10 : List.range 10 = [0, 1, 2, 3, 4, 5, 6, 7, 8, 9] := by decide
+theorem range12 : List.range 12 = [0, 1, 2, 3, 4, 5, 6, 7, 8, 9, 10, 11] := by decide
+
+set_option maxRecDepth 4000 in
+/-- **what the 12-point fit reproduces, interior cells**: if the twelve stencil values are the samples of *any* cubic
+    polynomial, the executed formula (`prepCubicG` with the table `c3`, `interpCubicG`), read over ℚ, returns that
+    polynomial at every `(fx, fy)` -/
+theorem cubic_interior_exact (a : Fin 10 → ℚ) (offset scale fx fy : ℚ) (h iy : Int) (h1 : iy ≠ 0) (h2 : iy ≠ h - 2)
+    (v0 v1 v2 v3 v4 v5 v6 v7 v8 v9 v10 v11 : Nat)
+    (hv : [(v0 : ℚ), (v1 : ℚ), (v2 : ℚ), (v3 : ℚ), (v4 : ℚ), (v5 : ℚ), (v6 : ℚ), (v7 : ℚ), (v8 : ℚ), (v9 : ℚ), (v10 : ℚ), (v11 : ℚ)] = samples (cubicP a)) :
+    interpCubicG offset scale fx fy (prepCubicG (fun n => (n : ℚ)) h iy [v0, v1, v2, v3, v4, v5, v6, v7, v8, v9, v10, v11]) =
+      offset + scale * cubicP a fx fy := by
+  simp only [samples, stencilCubic, List.map_cons, List.map_nil, List.cons.injEq, and_true] at hv
+  obtain ⟨e0, e1, e2, e3, e4, e5, e6, e7, e8, e9, e10, e11⟩ := hv
+  unfold interpCubicG prepCubicG
+  rw [if_neg h1, if_neg h2, if_neg h1, if_neg h2]
+  simp only [range10, range12, List.map, List.foldl, Gen.GeoidC.c3, Gen.GeoidC.c0]
+  simp [e0, e1, e2, e3, e4, e5, e6, e7, e8, e9, e10, e11, cubicP]
+  left
+  ring
+
+set_option maxRecDepth 4000 in
+/-- **north-pole cells** (`iy = 0`, table `c3n`): the fit reproduces exactly the cubics without pure-`x` terms, i.e. those
+    that are constant along the pole row `y = 0` (a 7-dimensional space) -/
+theorem cubic_north_exact (a : Fin 10 → ℚ) (ha : a 1 = 0 ∧ a 3 = 0 ∧ a 6 = 0) (offset scale fx fy : ℚ) (h : Int)
+    (v0 v1 v2 v3 v4 v5 v6 v7 v8 v9 v10 v11 : Nat)
+    (hv : [(v0 : ℚ), (v1 : ℚ), (v2 : ℚ), (v3 : ℚ), (v4 : ℚ), (v5 : ℚ), (v6 : ℚ), (v7 : ℚ), (v8 : ℚ), (v9 : ℚ), (v10 : ℚ), (v11 : ℚ)] = samples (cubicP a)) :
+    interpCubicG offset scale fx fy (prepCubicG (fun n => (n : ℚ)) h 0 [v0, v1, v2, v3, v4, v5, v6, v7, v8, v9, v10, v11]) =
+      offset + scale * cubicP a fx fy := by
+  simp only [samples, stencilCubic, List.map_cons, List.map_nil, List.cons.injEq, and_true] at hv
+  obtain ⟨e0, e1, e2, e3, e4, e5, e6, e7, e8, e9, e10, e11⟩ := hv
+  obtain ⟨a1, a3, a6⟩ := ha
+  unfold interpCubicG prepCubicG
+  simp only [if_true, range10, range12, List.map, List.foldl, Gen.GeoidC.c3n, Gen.GeoidC.c0n]
+  simp [e0, e1, e2, e3, e4, e5, e6, e7, e8, e9, e10, e11, cubicP, a1, a3, a6]
+  left
+  ring
+
+set_option maxRecDepth 4000 in
+/-- **south-pole cells** (`iy = h − 2`, table `c3s`): the fit reproduces exactly the cubics that are constant along the pole
+    row `y = 1` -/
+theorem cubic_south_exact (a : Fin 10 → ℚ) (ha : a 1 + a 4 + a 8 = 0 ∧ a 3 + a 7 = 0 ∧ a 6 = 0) (offset scale fx fy : ℚ) (h : Int) (hh : h - 2 ≠ 0)
+    (v0 v1 v2 v3 v4 v5 v6 v7 v8 v9 v10 v11 : Nat)
+    (hv : [(v0 : ℚ), (v1 : ℚ), (v2 : ℚ), (v3 : ℚ), (v4 : ℚ), (v5 : ℚ), (v6 : ℚ), (v7 : ℚ), (v8 : ℚ), (v9 : ℚ), (v10 : ℚ), (v11 : ℚ)] = samples (cubicP a)) :
+    interpCubicG offset scale fx fy (prepCubicG (fun n => (n : ℚ)) h (h - 2) [v0, v1, v2, v3, v4, v5, v6, v7, v8, v9, v10, v11]) =
+      offset + scale * cubicP a fx fy := by
+  simp only [samples, stencilCubic, List.map_cons, List.map_nil, List.cons.injEq, and_true] at hv
+  obtain ⟨e0, e1, e2, e3, e4, e5, e6, e7, e8, e9, e10, e11⟩ := hv
+  obtain ⟨c1, c2, c3⟩ := ha
+  have a1 : a 1 = -(a 4) - a 8 := by linarith
+  have a3 : a 3 = -(a 7) := by linarith
+  unfold interpCubicG prepCubicG
+  simp only [if_neg hh, if_true, range10, range12, List.map, List.foldl, Gen.GeoidC.c3s, Gen.GeoidC.c0s]
+  simp [e0, e1, e2, e3, e4, e5, e6, e7, e8, e9, e10, e11, cubicP, a1, a3, c3]
+  left
+  ring
+
+set_option maxRecDepth 4000 in
+/-- **the cubic height at a pole does not depend on the longitude within the cell**, whatever the twelve pixel values
+    are: `fy = 0` in a north-pole cell (table `c3n`), `fy = 1` in a south-pole cell (table `c3s`) -/
+theorem cubic_pole_independent_of_lon (offset scale fx fx' : ℚ) (h : Int) (hh : h - 2 ≠ 0)
+    (v0 v1 v2 v3 v4 v5 v6 v7 v8 v9 v10 v11 : Nat) :
+    interpCubicG offset scale fx 0 (prepCubicG (fun n => (n : ℚ)) h 0 [v0, v1, v2, v3, v4, v5, v6, v7, v8, v9, v10, v11]) =
+      interpCubicG offset scale fx' 0 (prepCubicG (fun n => (n : ℚ)) h 0 [v0, v1, v2, v3, v4, v5, v6, v7, v8, v9, v10, v11]) ∧
+    interpCubicG offset scale fx 1 (prepCubicG (fun n => (n : ℚ)) h (h - 2) [v0, v1, v2, v3, v4, v5, v6, v7, v8, v9, v10, v11]) =
+      interpCubicG offset scale fx' 1 (prepCubicG (fun n => (n : ℚ)) h (h - 2) [v0, v1, v2, v3, v4, v5, v6, v7, v8, v9, v10, v11]) := by
+  constructor
+  · unfold interpCubicG prepCubicG
+    simp only [if_true, range10, range12, List.map, List.foldl, Gen.GeoidC.c3n, Gen.GeoidC.c0n]
+    simp
+  · unfold interpCubicG prepCubicG
+    simp only [if_neg hh, if_true, range10, range12, List.map, List.foldl, Gen.GeoidC.c3s, Gen.GeoidC.c0s]
+    simp
+    left
+    ring
+
+
+/-- the polar tables solve the weighted normal equations of the *constrained* fit (same stencil and weights; basis: the
+    seven monomials without a pure power of `x` at the north pole, the same in `1 − y` at the south pole): the residual of
+    the fit of every unit sample is `W`-orthogonal to the constrained space -/
+theorem cubic_polar_normal_equations :
+    ((List.range 12).all fun k => [0, 2, 4, 5, 7, 8, 9].all fun i =>
+      ((List.range 12).map fun j => weights.getD j 0 * (monos (stencilCubic.getD j (0, 0)).1 (stencilCubic.getD j (0, 0)).2).getD i 0 *
+          ((List.range 10).map fun l => tcoef Gen.GeoidC.c3n k l * (monos (stencilCubic.getD j (0, 0)).1 (stencilCubic.getD j (0, 0)).2).getD l 0).sum).sum
+        == Gen.GeoidC.c0n * weights.getD k 0 * (monos (stencilCubic.getD k (0, 0)).1 (stencilCubic.getD k (0, 0)).2).getD i 0) = true ∧
+    ((List.range 12).all fun k => [0, 2, 4, 5, 7, 8, 9].all fun i =>
+      ((List.range 12).map fun j => weights.getD j 0 * (monos (stencilCubic.getD j (0, 0)).1 (1 - (stencilCubic.getD j (0, 0)).2)).getD i 0 *
+          ((List.range 10).map fun l => tcoef Gen.GeoidC.c3s k l * (monos (stencilCubic.getD j (0, 0)).1 (stencilCubic.getD j (0, 0)).2).getD l 0).sum).sum
+        == Gen.GeoidC.c0s * weights.getD k 0 * (monos (stencilCubic.getD k (0, 0)).1 (1 - (stencilCubic.getD k (0, 0)).2)).getD i 0) = true ∧
+    -- the fits lie in the constrained spaces: no pure powers of x at the north pole; constant along y = 1 at the south pole
+    ((List.range 12).all fun j => tcoef Gen.GeoidC.c3n j 1 == 0 && tcoef Gen.GeoidC.c3n j 3 == 0 && tcoef Gen.GeoidC.c3n j 6 == 0) = true ∧
+    ((List.range 12).all fun j => tcoef Gen.GeoidC.c3s j 1 + tcoef Gen.GeoidC.c3s j 4 + tcoef Gen.GeoidC.c3s j 8 == 0 &&
+        tcoef Gen.GeoidC.c3s j 3 + tcoef Gen.GeoidC.c3s j 7 == 0 && tcoef Gen.GeoidC.c3s j 6 == 0) = true := by
+  refine ⟨by decide +kernel, by decide +kernel, by decide +kernel, by decide +kernel⟩
 
 end GeoVerif.Props.C20
